@@ -57,6 +57,7 @@ def SimFault.cls : SimFault → String
   | .fw .durOverflow => "dur"
   | .fw .fuel => "fuel"
   | .fuel => "fuel"
+  | .diverge => "diverge"
 
 /-- the effective `Args` of a run (`sim` fixes everything but the length cap and one filter) -/
 def RunIn.effArgs (r : RunIn) (delay : Nat) : Args :=
